@@ -144,3 +144,23 @@ package mocktikv
 //@   at call(checkConflictValue) assert ownpessimistic: alreadyLocked ==> dec.lock.startTS == lctx.startTS && dec.lock.op == kvrpcpb.Op_PessimisticLock
 //@   ensures foreign: alreadyLocked && dec.lock.startTS != startTS ==> result != nil && batch.n == old(batch.n)
 //@   ensures ownprewrite: alreadyLocked && dec.lock.startTS == startTS && dec.lock.op != kvrpcpb.Op_PessimisticLock ==> result != nil && batch.n == old(batch.n)
+
+// A pessimistic rollback removes a lock only if it is a PESSIMISTIC lock of the transaction whose for-update timestamp
+// does not exceed the request's: a prewrite lock is never removed this way, nor anybody else's lock.
+//@ func pessimisticRollbackKey
+//@   prop C12
+//@   may-panic
+//@   opaque-callee newIterator Release mvccEncode
+//@   modifies leveldb.Batch.n of batch, leveldb.Batch.puts of batch
+//@   ensures only: batch.n != old(batch.n) ==> ok && dec.lock.op == kvrpcpb.Op_PessimisticLock && dec.lock.startTS == startTS && dec.lock.forUpdateTS <= forUpdateTS && batch.n == old(batch.n) + 1 && batch.puts == old(batch.puts)
+//@   ensures done: result == nil || batch.n == old(batch.n)
+
+// Reverse scan: every key that was collected is read like a point get at the scan's timestamp, and whatever that read
+// reports - a value or an error such as the blocking lock - becomes a pair of the result (also for a key that has a lock
+// but no committed version yet).
+//@ func (*reverseScanHelper) finishEntry
+//@   prop C12
+//@   may-panic
+//@   opaque-callee Get reverse NewMvccKey
+//@   at return assert reported: err != nil || len(val) != 0 ==> len(helper.pairs) == old(len(helper.pairs)) + 1 && helper.pairs[len(helper.pairs)-1].Err == err
+//@   at call(Get) assert asked: arg_ts == helper.startTS && arg_isoLevel == helper.isoLevel
